@@ -213,6 +213,46 @@ structure HdlrView where
 /-- `q.AddRateLimited(rparam{fullsync})` on the log of enqueued items -/
 def enqueue (fx : List Bool) (full : Bool) : List Bool := fx ++ [full]
 
+/-! ## traces of effectful steps (control skeletons) -/
+
+/-- the oracle of one run of a control skeleton: which named steps fail, what the named reads return -/
+structure Env where
+  fail : String → Bool
+  val : String → Bool
+  num : String → Int
+
+/-- the log of the steps taken so far -/
+abbrev Fx := List String
+
+/-- a step without result -/
+def eff (name : String) (fx : Fx) : Fx := fx ++ [name]
+/-- a step with a Bool argument worth recording -/
+def effB (name : String) (fx : Fx) (b : Bool) : Fx := fx ++ [name ++ ":" ++ toString b]
+/-- a step that returns an `error` -/
+def callE (env : Env) (name : String) (fx : Fx) : Option String × Fx :=
+  (if env.fail name then some name else none, fx ++ [name])
+/-- a step that returns a Bool -/
+def callB (env : Env) (name : String) (fx : Fx) : Bool × Fx := (env.val name, fx ++ [name])
+/-- reads (no step) -/
+def readB (env : Env) (name : String) : Bool := env.val name
+def readN (env : Env) (name : String) : Int := env.num name
+/-- `fmt.Errorf(format, err)`: some error -/
+def errorf (format : String) (e : Option String) : Option String := some (format ++ (e.getD ""))
+
+/-- `haproxy.instance` as `HAProxyUpdate` / `Reload` see it -/
+structure InstView where
+  configNil : Bool
+  rewriteOwed : Bool
+  reloadOwed : Bool
+  up : Bool
+  fake : Bool
+  sortEndpointsBy : String
+  validateConfig : Bool
+  hasReloadQueue : Bool
+  isExternal : Bool
+  isMasterWorker : Bool
+deriving DecidableEq, Repr
+
 /-- `workqueue.reloadHAProxy` (the mutex is not state) -/
 structure ReloadHAProxy where
   interval : Int
